@@ -8,7 +8,7 @@ import c04
 if __name__ == '__main__':
     chk = Check('C10')
     try:
-        c04.run(chk, keep=('reports-exact', 'lost-events'), pid='C10')
+        c04.run(chk, keep=('reports-exact', 'lost-events'), pid='C10', script=os.path.abspath(__file__))
     except Inconclusive as e:
         o = chk.ob('engine', 'executor could not interpret the code')
         o.status = 'inconclusive'
